@@ -7,6 +7,7 @@ import (
 	"runtime"
 	"sort"
 	"strings"
+	"sync"
 	"sync/atomic"
 	"time"
 
@@ -498,6 +499,100 @@ func run(r *ev.Run, c *ev.Case, sc scenario) {
 	r.Nontrivial(fmt.Sprintf("%+v", sc))
 }
 
+// racing: clients are already parked on a code when, at the same instant, more clients register for that code and a
+// request with it arrives. The ones that were parked before the request was sent are released by it — whatever the
+// newcomers are doing at that moment. (Direct calls on one server; many short rounds.)
+func racing(r *ev.Run) {
+	c := r.Case("racing", 0)
+	if c == nil || wedgedOnce {
+		return
+	}
+	g, err := newRig(true)
+	if err != nil {
+		return
+	}
+	defer g.close()
+	rounds := r.Pick(400, 6000)
+	for it := 0; it < rounds; it++ {
+		code := byte(it % 40)
+		var early []*waiter
+		for k := 0; k < 2; k++ {
+			w, _ := g.startWaiter(code)
+			early = append(early, w)
+		}
+		if n := waitParked(2, ev.OpTimeout()); n != 2 {
+			r.Violation(c, "waiter-does-not-register:racing", fmt.Sprintf("round %d: %d parked", it, n), nil)
+			wedgedOnce = true
+			return
+		}
+		start := make(chan struct{})
+		var late []*waiter
+		var lwg sync.WaitGroup
+		for k := 0; k < 6; k++ {
+			w := &waiter{code: code, done: make(chan error, 1)}
+			late = append(late, w)
+			lwg.Add(1)
+			go func() {
+				<-start
+				lwg.Done()
+				w.done <- g.direct.Wait(code)
+			}()
+		}
+		bdone := make(chan struct{})
+		go func() {
+			<-start
+			for spin := c.Rand.Intn(200); spin > 0; spin-- {
+				runtime.Gosched()
+			}
+			g.direct.Broadcast(code)
+			close(bdone)
+		}()
+		close(start)
+		select {
+		case <-bdone:
+		case <-time.After(ev.OpTimeout()):
+			r.Violation(c, "request-never-completes-while-clients-wait:racing", fmt.Sprintf("round %d, code %d", it, code), nil)
+			wedgedOnce = true
+			return
+		}
+		r.Eval(1)
+		for _, w := range early {
+			select {
+			case e := <-w.done:
+				if e != nil {
+					r.Violation(c, "released-waiter-reports-error:racing", e.Error(), nil)
+					wedgedOnce = true
+					return
+				}
+			case <-time.After(ev.OpTimeout()):
+				r.Violation(c, "waiter-not-released:racing", fmt.Sprintf("round %d: a client parked on code %d before the request was sent is still parked after the request completed (six more clients were registering for the same code at that moment)", it, code), map[string]any{"round": it, "code": code})
+				wedgedOnce = true
+				return
+			}
+		}
+		// release the newcomers (those that registered after the request are legitimately still parked)
+		lwg.Wait()
+		deadline := time.Now().Add(ev.OpTimeout())
+		for _, w := range late {
+			for released := false; !released; {
+				select {
+				case <-w.done:
+					released = true
+				case <-time.After(200 * time.Microsecond):
+					g.direct.Broadcast(code)
+					if time.Now().After(deadline) {
+						r.Violation(c, "waiter-survives-matching-requests:racing", fmt.Sprintf("round %d", it), nil)
+						wedgedOnce = true
+						return
+					}
+				}
+			}
+		}
+	}
+	r.Count("racing rounds (2 parked, 6 registering, 1 request at once): the parked ones released", rounds)
+	r.Nontrivial("racing")
+}
+
 func main() {
 	ev.MainIsolated("C20", "exploration", 60*time.Minute, func(r *ev.Run) {
 		r.Rule("scenarios on a real remote-mode yubiagent server (waiters are real clients calling Wait on their own connections served by ServeAgent; pokes are request frames whose first byte is the code, on fresh connections) and directly on (*shimagent.Server).Wait/Broadcast: every code 0..255 as wait code; 1..8 waiters on one code and spread over 2..4 codes; pokes of matching and non-matching codes (including codes >= 40 and codes congruent modulo 40) in seeded orders, all orders for up to 3 codes; late waiters registering between two pokes; a quarter of the scenarios lock the agent first (waiting does not depend on the lock state). The goroutine table is the monitor: after each poke's reply the number of goroutines parked in sync.Cond.Wait below (*Server).Wait must equal the number of waiters on other codes, the released waiters must all return success, no other waiter may return. Race-instrumented. distinct_nontrivial = distinct scenarios that ran to the end")
@@ -640,6 +735,7 @@ func main() {
 			}
 			one("gen", sc)
 		}
+		racing(r)
 		cs := []string{}
 		_ = sort.Strings
 		_ = cs
